@@ -19,7 +19,8 @@ TEXT = ("Thin claim: equality with the past state is a history property and is N
         "the tree insertion nor any query of the tree's content to decide its result (taint closure over data and control "
         "dependence), so its outcome cannot depend on revisions already delivered or on the order of a block's records. "
         "T6 - the object index and the applied-pack set only grow between reloads (who-may-write: keyed insert anywhere, "
-        "clear only in DataStorage::reload).")
+        "clear only in DataStorage::reload)."
+        " T4b: nothing get_value returns derives from the tree's current leaf set or from the merge fold.")
 TECHNIQUE = 'static analysis over rustc MIR: work-list completeness in reload_until (dominance + whole-iteration), data/control-dependence taint of tree queries in the applier, who-may-shrink on the object index'
 TRUSTED = ["rustc nightly MIR", "C02 (apply only when Ready)", "C15/G1"]
 
